@@ -23,13 +23,13 @@ func init() {
 			"(R7) the per-column target index is indexed by column index only; (R8) the target-validity check is unreachable from the target cleanup: after a batch removal the remaining targets of a table may be entities of the same batch that are still to be cleaned up, so validating them can only fail a valid call. Not decided: multi-step target-death histories; that the protocols compose.",
 		TrustedBase: []string{"go/types, go/cfg", "container purge summaries derived from loops over the lookup containers", "single-relation idiom: a table of an archetype with one relation has exactly one target"},
 		Rules: []Rule{
-			{ID: "C04/R1", Run: c04r1, Min: 5},
-			{ID: "C04/R2", Run: c04r2, Min: 2},
-			{ID: "C04/R3", Run: c04r3, Min: 4},
-			{ID: "C04/R4", Run: c04r4, Min: 2},
+			{ID: "C04/R1", Run: c04r1, Min: 1},
+			{ID: "C04/R2", Run: c04r2, Min: 1},
+			{ID: "C04/R3", Run: c04r3, Min: 1},
+			{ID: "C04/R4", Run: c04r4, Min: 1},
 			{ID: "C04/R5", Run: c04r5, Min: 1},
 			{ID: "C04/R6", Run: c04r6, Min: 1},
-			{ID: "C04/R7", Run: c04r7, Min: 4},
+			{ID: "C04/R7", Run: c04r7, Min: 1},
 			{ID: "C04/R8", Run: c04r8, Min: 1},
 		},
 	})
